@@ -465,14 +465,14 @@ func termOrNil(v ssa.Value) string {
 // resolveSpill follows a load of a local allocation that is stored exactly once.
 func resolveSpill(v ssa.Value) ssa.Value {
 	for i := 0; i < 4; i++ {
-		u, ok := v.(*ssa.UnOp)
-		if !ok || u.Op != token.MUL {
-			return v
-		}
 		// a field of the receiver of a method value bound to a local struct
 		if rv := receiverField(v); rv != nil {
 			v = rv
 			continue
+		}
+		u, ok := v.(*ssa.UnOp)
+		if !ok || u.Op != token.MUL {
+			return v
 		}
 		al, ok := u.X.(*ssa.Alloc)
 		if fv, isFV := u.X.(*ssa.FreeVar); isFV {
